@@ -22,7 +22,7 @@ with open(os.path.join(ROOT, "seeded", "INDEX.md"), "w") as f:
     f.write("# Seeded changes (written by independent sub-agents, confirmed by the lead)\n\n")
     f.write("Each directory holds patch.diff, the demonstration test and meta.json (what it breaks, what it needs to manifest,\n"
             "what was run to confirm it, and what `VERIF_REPO=<scratch worktree> ./check <property>` reported).\n"
-            "`r2-` marks the second round (the agents were told the first round's mechanisms and asked for different, subtler ones).\n\n")
+            "`r2-`, `r3-`, `r4-` mark later rounds (the agents were told the earlier mechanisms and asked for different ones).\n\n")
     f.write("%d changes, %d detected (%d with a concrete failing input in the replay).\n\n" % (
         len(rows), sum(1 for r in rows if r[4] != "MISSED"), sum(1 for r in rows if r[4].startswith("detected, failing"))))
     f.write("| seed | property | change | needs | our check (final state) | wall s |\n|---|---|---|---|---|---|\n")
